@@ -1620,6 +1620,9 @@ class CircuitTemplate(AbstractBaseTemplate):
     @staticmethod
     def _validate_backend_args(backend: str, vectorize: bool, run: bool = False, **kwargs) -> None:
 
+        if backend is not None and backend not in ['default', 'numpy', 'torch', 'jax', 'fortran', 'julia', 'matlab']:
+            raise PyRatesException(f'Unknown backend: {backend}. Please choose one of `default`, `numpy`, `torch`, `jax`, '
+                                   f'`fortran`, `julia` or `matlab`.')
         if vectorize and backend in ['fortran']:
             raise PyRatesException(f'Vectorization of the network has been requested but is not implemented for your '
                                    f'choice of backend: {backend}. Please either choose another backend or set '
